@@ -267,6 +267,19 @@ def _debug_scan(ctx, prog, fn, stmts, report, depth=0, seen=None):
         recv = method_call(c)
         safe = (recv is not None and U(recv[0]) == 'LOG') or r in (
             'builtin:isinstance', 'builtin:str', 'builtin:type')
+        if not safe and recv is not None and recv[1] in ('append', 'add') \
+                and isinstance(recv[0], ast.Name) and len(c.args) == 1 \
+                and isinstance(c.args[0], (ast.Name, ast.Constant)):
+            # collecting into a list / set built right here cannot fail
+            binds = [n.value for n in ast.walk(fn.node)
+                     if isinstance(n, ast.Assign) and any(
+                         isinstance(t, ast.Name) and t.id == recv[0].id
+                         for t in n.targets)]
+            safe = bool(binds) and all(
+                isinstance(b, (ast.List, ast.Set)) or (
+                    isinstance(b, ast.Call) and isinstance(b.func, ast.Name)
+                    and b.func.id in ('list', 'set') and not b.args)
+                for b in binds)
         if not safe:
             g = None
             try:
